@@ -112,6 +112,7 @@ type PredSpec struct {
 }
 
 type GhostDecl struct {
+	Tags  []string // properties whose frame obligations this variable carries
 	Pkg   string
 	Name  string // variable name, or Type.field
 	Sort  string
@@ -144,6 +145,7 @@ type Specs struct {
 	Confines  []*ConfineSpec
 	StopRules []*StopSpec
 	SMTAxioms []string // raw SMT-LIB assertions about the uninterpreted float functions (assumed)
+	Stale     map[string]*FuncSpec // contracts whose function changed its signature: only their loop specs are used
 }
 
 type StopSpec struct {
@@ -338,7 +340,16 @@ func (sp *Specs) parseSpecFile(path, pkg string) error {
 				return err
 			}
 			// ghost var name sort... | ghost field Type.name sort...
-			g := &GhostDecl{Pkg: pkg, Name: f[2], Sort: miniSort(strings.Join(f[3:], " ")), Field: f[1] == "field"}
+			// ghost var name sort [C06 C07]: the properties that rest on the variable changing only
+			// where a contract says so (tags of its frame obligations)
+			var gtags []string
+			fs := f
+			if m := regexp.MustCompile(`\s*\[([A-Z0-9* ]+)\]\s*$`).FindStringSubmatch(rest); m != nil {
+				gtags = strings.Fields(m[1])
+				fs = strings.Fields(strings.TrimSpace(strings.TrimSuffix(strings.TrimSpace(ln.text), strings.TrimSpace(m[0]))))
+			}
+			f = fs
+			g := &GhostDecl{Pkg: pkg, Name: f[2], Sort: miniSort(strings.Join(f[3:], " ")), Field: f[1] == "field", Tags: gtags}
 			if g.Field {
 				sp.Ghosts["field:"+g.Name] = g
 			} else {
